@@ -603,6 +603,31 @@ func checkC12(p *Prog, r *Report) {
 		})
 		r.Check(okRead, "readPacket only dequeues", p.Pos(f.Body.Pos()), "no store into the insertion end, no linking", why+": a datagram put back by the reader lands behind newer ones and the connection no longer delivers in arrival order")
 	}
+
+	// ---- R12.10 the reply can be routed before it can arrive ----------------------------------------------
+	r.Rule("R12.10", "A connection registers the destination address with the mux before it hands the datagram to the socket (both write paths): a reply that arrives while the write is still returning is already routed to the writer, not to the address's previous owner.", 2)
+	for _, wn := range []string{"udpMuxedConn.WriteTo", "udpMuxedConn.WriteToAddrPort"} {
+		f := p.Fn(wn)
+		if !r.Anchor(wn, f != nil) {
+			continue
+		}
+		var writes []*ast.CallExpr
+		for _, c := range p.CallsTo(f, false, "ice.UDPMuxDefault.writeTo", "ice.UDPMuxDefault.writeToUDPAddrPort") {
+			writes = append(writes, c)
+		}
+		ok := len(writes) > 0
+		for _, w := range writes {
+			if !p.MustPrecede(f, w, func(n ast.Node) bool {
+				return p.nodeHasCall(n, func(c *ast.CallExpr) bool {
+					nm := p.CalleeName(c)
+					return nm == "ice.udpMuxedConn.registerAddress" || nm == "ice.udpMuxedConn.addAddress"
+				})
+			}) {
+				ok = false
+			}
+		}
+		r.Check(ok, wn+": address registered before the socket write", p.Pos(f.Body.Pos()), "registerAddress precedes the write on every path", "the destination address is registered after (or not on every path before) the socket write: a reply dispatched in between is delivered to the connection that used the address before, or dropped")
+	}
 }
 
 // reachesViaRead: every path from b to target passes the socket read (i.e.
